@@ -33,6 +33,7 @@ type Req struct {
 	Leaks     bool       `json:"leaks,omitempty"`     // after the call, wait for gtree goroutines to settle and report those left
 	ReadFail  *int       `json:"readfail,omitempty"`  // the reader delivers this many bytes and then fails with a sentinel error
 	WFault    *WFault    `json:"wfault,omitempty"`    // the writer refuses one Write call
+	ErrWrap   string     `json:"errwrap,omitempty"`   // the injected reader/writer error also wraps "canceled" (context.Canceled) or "deadline"
 	Procs     int        `json:"procs,omitempty"`     // GOMAXPROCS for this call (0 = leave)
 	Yield     int        `json:"yield,omitempty"`     // reader, writer and callbacks yield / sleep (1 = Gosched, n>1 = n microseconds)
 	CancelAt  *int       `json:"cancelat,omitempty"`  // cancel the caller's context when the reader has delivered this many bytes (-1: before the call)
@@ -40,7 +41,7 @@ type Req struct {
 	FailNames []string   `json:"failnames,omitempty"` // walk: the callback fails at every node with one of these names
 	PreDoc    string     `json:"predoc,omitempty"`    // mkdir/verify in a worker-owned jail: directories made (simple mode) before the call
 	NodeIdx   int        `json:"nodeidx,omitempty"`   // From-Root: operate on the k-th node in pre-order instead of the root (-1: nil)
-	PreOps    []string   `json:"preops,omitempty"`    // From-Root: operations performed on the same tree first ("output", "walk", "walkiter", "json")
+	PreOps    []string   `json:"preops,omitempty"`    // From-Root: operations performed on the same tree first ("output", "walk", "walkiter", "json", "massive-output", "mkdir-elsewhere")
 	Record    bool       `json:"record,omitempty"`    // record the hook events of this call
 	Delays    int64      `json:"delays,omitempty"`    // seed for random delays at hook points (0 = none)
 	Plan      []PlanStep `json:"plan,omitempty"`      // gate: hold goroutines at hook points until the plan allows them
@@ -62,8 +63,8 @@ type PlanStep struct {
 	Gid   *uint64 `json:"gid,omitempty"` // the hook's goroutine id must match too (handlers: channel index)
 }
 
-// WFault: Write call number At (1-based) is refused: "fail" accepts nothing, "short" accepts half; both
-// return an error, every later call is refused as well.
+// WFault: Write call number At (1-based) is refused: "fail" accepts nothing, "short" accepts half, "full"
+// accepts everything; all return an error, every later call is refused as well ("-once": only that call).
 type WFault struct {
 	How string `json:"how"`
 	At  int    `json:"at"`
@@ -84,6 +85,8 @@ type Rep struct {
 	Entries     []string `json:"entries,omitempty"`
 	Leaked      int      `json:"leaked,omitempty"`      // goroutines with gtree frames alive after the call settled
 	LeakSigs    []string `json:"leaksigs,omitempty"`    // top gtree frame + wait reason of each
+	Unsettled   bool     `json:"unsettled,omitempty"`   // goroutines of the call were still moving when the harness gave up waiting: no verdict
+	ReadsAfter  int      `json:"reads_after,omitempty"` // Read calls on the input reader that began after the call had returned and the settling period was over
 	IsReaderErr bool     `json:"isreadererr,omitempty"` // errors.Is(err, the injected reader error)
 	WCalls      int      `json:"wcalls,omitempty"`      // Write calls seen by the writer
 	WRefused    bool     `json:"wrefused,omitempty"`    // some Write call was refused or cut
